@@ -1,0 +1,423 @@
+//! Verification-build primitives (`RUSTFLAGS="--cfg excsn_fibre_verif"`): the
+//! same names/APIs as `real.rs`, but every atomic step, lock acquisition and
+//! park calls `verif::point(..)` first, so an external harness can perturb the
+//! schedule (delay / yield / spurious weak-CAS failure) exactly at the
+//! library's own synchronisation steps and count which steps were reached.
+//! With the cfg off this file is not compiled at all.
+
+#![allow(unused_imports)]
+
+use std::sync::atomic::Ordering;
+
+/// Public (re-exported as `fibre::verif`) control surface for the harness.
+pub mod verif {
+  use std::sync::atomic::{AtomicUsize, Ordering};
+
+  /// What kind of synchronisation step is about to happen.
+  #[derive(Clone, Copy, Debug, PartialEq, Eq, Hash)]
+  #[repr(u8)]
+  pub enum Kind {
+    Load = 0,
+    Store = 1,
+    Rmw = 2,
+    Cas = 3,
+    CasWeak = 4,
+    Fence = 5,
+    MutexLock = 6,
+    MutexTryLock = 7,
+    Park = 8,
+    ParkTimeout = 9,
+    ParkReturn = 10,
+    Yield = 11,
+    Spin = 12,
+    /// Explicit points placed in modules that do not use the facade.
+    Custom = 13,
+  }
+  pub const KINDS: usize = 14;
+
+  pub type Hook = fn(Kind);
+  pub type WeakFail = fn() -> bool;
+
+  static HOOK: AtomicUsize = AtomicUsize::new(0);
+  static WEAK_FAIL: AtomicUsize = AtomicUsize::new(0);
+
+  /// Installs (or clears) the function called before every instrumented step.
+  pub fn install(hook: Option<Hook>) {
+    HOOK.store(hook.map(|h| h as usize).unwrap_or(0), Ordering::SeqCst);
+  }
+
+  /// Installs (or clears) the oracle deciding whether a `compare_exchange_weak`
+  /// fails spuriously.
+  pub fn install_weak_fail(f: Option<WeakFail>) {
+    WEAK_FAIL.store(f.map(|h| h as usize).unwrap_or(0), Ordering::SeqCst);
+  }
+
+  #[inline]
+  pub fn point(kind: Kind) {
+    let h = HOOK.load(Ordering::Relaxed);
+    if h != 0 {
+      // SAFETY: only `install` writes HOOK, always from a valid `fn(Kind)`.
+      let f: Hook = unsafe { std::mem::transmute::<usize, Hook>(h) };
+      f(kind);
+    }
+  }
+
+  #[inline]
+  pub(crate) fn weak_should_fail() -> bool {
+    let h = WEAK_FAIL.load(Ordering::Relaxed);
+    if h != 0 {
+      // SAFETY: only `install_weak_fail` writes WEAK_FAIL.
+      let f: WeakFail = unsafe { std::mem::transmute::<usize, WeakFail>(h) };
+      f()
+    } else {
+      false
+    }
+  }
+}
+
+use verif::{point, Kind};
+
+#[inline]
+pub(crate) fn fence(order: Ordering) {
+  point(Kind::Fence);
+  std::sync::atomic::fence(order)
+}
+
+pub(crate) mod hint {
+  pub use std::hint::*;
+
+  #[inline]
+  pub fn spin_loop() {
+    super::point(super::Kind::Spin);
+    std::hint::spin_loop()
+  }
+}
+
+pub(crate) mod thread {
+  pub use std::thread::*;
+  use std::time::Duration;
+
+  #[inline]
+  pub fn park() {
+    super::point(super::Kind::Park);
+    std::thread::park();
+    super::point(super::Kind::ParkReturn);
+  }
+
+  #[inline]
+  pub fn park_timeout(dur: Duration) {
+    super::point(super::Kind::ParkTimeout);
+    std::thread::park_timeout(dur);
+    super::point(super::Kind::ParkReturn);
+  }
+
+  #[inline]
+  pub fn yield_now() {
+    super::point(super::Kind::Yield);
+    std::thread::yield_now()
+  }
+}
+
+macro_rules! instrumented_int_atomic {
+  ($name:ident, $std:ty, $prim:ty) => {
+    #[derive(Default)]
+    #[repr(transparent)]
+    pub(crate) struct $name($std);
+
+    #[allow(dead_code)]
+    impl $name {
+      #[inline]
+      pub(crate) const fn new(v: $prim) -> Self {
+        Self(<$std>::new(v))
+      }
+      #[inline]
+      pub(crate) fn load(&self, o: Ordering) -> $prim {
+        point(Kind::Load);
+        self.0.load(o)
+      }
+      #[inline]
+      pub(crate) fn store(&self, v: $prim, o: Ordering) {
+        point(Kind::Store);
+        self.0.store(v, o)
+      }
+      #[inline]
+      pub(crate) fn swap(&self, v: $prim, o: Ordering) -> $prim {
+        point(Kind::Rmw);
+        self.0.swap(v, o)
+      }
+      #[inline]
+      pub(crate) fn fetch_add(&self, v: $prim, o: Ordering) -> $prim {
+        point(Kind::Rmw);
+        self.0.fetch_add(v, o)
+      }
+      #[inline]
+      pub(crate) fn fetch_sub(&self, v: $prim, o: Ordering) -> $prim {
+        point(Kind::Rmw);
+        self.0.fetch_sub(v, o)
+      }
+      #[inline]
+      pub(crate) fn fetch_or(&self, v: $prim, o: Ordering) -> $prim {
+        point(Kind::Rmw);
+        self.0.fetch_or(v, o)
+      }
+      #[inline]
+      pub(crate) fn fetch_and(&self, v: $prim, o: Ordering) -> $prim {
+        point(Kind::Rmw);
+        self.0.fetch_and(v, o)
+      }
+      #[inline]
+      pub(crate) fn fetch_xor(&self, v: $prim, o: Ordering) -> $prim {
+        point(Kind::Rmw);
+        self.0.fetch_xor(v, o)
+      }
+      #[inline]
+      pub(crate) fn fetch_max(&self, v: $prim, o: Ordering) -> $prim {
+        point(Kind::Rmw);
+        self.0.fetch_max(v, o)
+      }
+      #[inline]
+      pub(crate) fn fetch_min(&self, v: $prim, o: Ordering) -> $prim {
+        point(Kind::Rmw);
+        self.0.fetch_min(v, o)
+      }
+      #[inline]
+      pub(crate) fn compare_exchange(
+        &self,
+        cur: $prim,
+        new: $prim,
+        s: Ordering,
+        f: Ordering,
+      ) -> Result<$prim, $prim> {
+        point(Kind::Cas);
+        self.0.compare_exchange(cur, new, s, f)
+      }
+      #[inline]
+      pub(crate) fn compare_exchange_weak(
+        &self,
+        cur: $prim,
+        new: $prim,
+        s: Ordering,
+        f: Ordering,
+      ) -> Result<$prim, $prim> {
+        point(Kind::CasWeak);
+        if verif::weak_should_fail() {
+          return Err(self.0.load(f));
+        }
+        self.0.compare_exchange_weak(cur, new, s, f)
+      }
+      #[inline]
+      pub(crate) fn get_mut(&mut self) -> &mut $prim {
+        self.0.get_mut()
+      }
+      #[inline]
+      pub(crate) fn into_inner(self) -> $prim {
+        self.0.into_inner()
+      }
+    }
+
+    impl std::fmt::Debug for $name {
+      fn fmt(&self, f: &mut std::fmt::Formatter<'_>) -> std::fmt::Result {
+        self.0.fmt(f)
+      }
+    }
+
+    impl From<$prim> for $name {
+      fn from(v: $prim) -> Self {
+        Self::new(v)
+      }
+    }
+  };
+}
+
+instrumented_int_atomic!(AtomicU8, std::sync::atomic::AtomicU8, u8);
+instrumented_int_atomic!(AtomicU32, std::sync::atomic::AtomicU32, u32);
+instrumented_int_atomic!(AtomicU64, std::sync::atomic::AtomicU64, u64);
+instrumented_int_atomic!(AtomicUsize, std::sync::atomic::AtomicUsize, usize);
+
+#[derive(Default)]
+#[repr(transparent)]
+pub(crate) struct AtomicBool(std::sync::atomic::AtomicBool);
+
+#[allow(dead_code)]
+impl AtomicBool {
+  #[inline]
+  pub(crate) const fn new(v: bool) -> Self {
+    Self(std::sync::atomic::AtomicBool::new(v))
+  }
+  #[inline]
+  pub(crate) fn load(&self, o: Ordering) -> bool {
+    point(Kind::Load);
+    self.0.load(o)
+  }
+  #[inline]
+  pub(crate) fn store(&self, v: bool, o: Ordering) {
+    point(Kind::Store);
+    self.0.store(v, o)
+  }
+  #[inline]
+  pub(crate) fn swap(&self, v: bool, o: Ordering) -> bool {
+    point(Kind::Rmw);
+    self.0.swap(v, o)
+  }
+  #[inline]
+  pub(crate) fn fetch_or(&self, v: bool, o: Ordering) -> bool {
+    point(Kind::Rmw);
+    self.0.fetch_or(v, o)
+  }
+  #[inline]
+  pub(crate) fn fetch_and(&self, v: bool, o: Ordering) -> bool {
+    point(Kind::Rmw);
+    self.0.fetch_and(v, o)
+  }
+  #[inline]
+  pub(crate) fn fetch_xor(&self, v: bool, o: Ordering) -> bool {
+    point(Kind::Rmw);
+    self.0.fetch_xor(v, o)
+  }
+  #[inline]
+  pub(crate) fn compare_exchange(
+    &self,
+    cur: bool,
+    new: bool,
+    s: Ordering,
+    f: Ordering,
+  ) -> Result<bool, bool> {
+    point(Kind::Cas);
+    self.0.compare_exchange(cur, new, s, f)
+  }
+  #[inline]
+  pub(crate) fn compare_exchange_weak(
+    &self,
+    cur: bool,
+    new: bool,
+    s: Ordering,
+    f: Ordering,
+  ) -> Result<bool, bool> {
+    point(Kind::CasWeak);
+    if verif::weak_should_fail() {
+      return Err(self.0.load(f));
+    }
+    self.0.compare_exchange_weak(cur, new, s, f)
+  }
+  #[inline]
+  pub(crate) fn get_mut(&mut self) -> &mut bool {
+    self.0.get_mut()
+  }
+  #[inline]
+  pub(crate) fn into_inner(self) -> bool {
+    self.0.into_inner()
+  }
+}
+
+impl std::fmt::Debug for AtomicBool {
+  fn fmt(&self, f: &mut std::fmt::Formatter<'_>) -> std::fmt::Result {
+    self.0.fmt(f)
+  }
+}
+
+impl From<bool> for AtomicBool {
+  fn from(v: bool) -> Self {
+    Self::new(v)
+  }
+}
+
+#[repr(transparent)]
+pub(crate) struct AtomicPtr<T>(std::sync::atomic::AtomicPtr<T>);
+
+#[allow(dead_code)]
+impl<T> AtomicPtr<T> {
+  #[inline]
+  pub(crate) const fn new(p: *mut T) -> Self {
+    Self(std::sync::atomic::AtomicPtr::new(p))
+  }
+  #[inline]
+  pub(crate) fn load(&self, o: Ordering) -> *mut T {
+    point(Kind::Load);
+    self.0.load(o)
+  }
+  #[inline]
+  pub(crate) fn store(&self, p: *mut T, o: Ordering) {
+    point(Kind::Store);
+    self.0.store(p, o)
+  }
+  #[inline]
+  pub(crate) fn swap(&self, p: *mut T, o: Ordering) -> *mut T {
+    point(Kind::Rmw);
+    self.0.swap(p, o)
+  }
+  #[inline]
+  pub(crate) fn compare_exchange(
+    &self,
+    cur: *mut T,
+    new: *mut T,
+    s: Ordering,
+    f: Ordering,
+  ) -> Result<*mut T, *mut T> {
+    point(Kind::Cas);
+    self.0.compare_exchange(cur, new, s, f)
+  }
+  #[inline]
+  pub(crate) fn compare_exchange_weak(
+    &self,
+    cur: *mut T,
+    new: *mut T,
+    s: Ordering,
+    f: Ordering,
+  ) -> Result<*mut T, *mut T> {
+    point(Kind::CasWeak);
+    if verif::weak_should_fail() {
+      return Err(self.0.load(f));
+    }
+    self.0.compare_exchange_weak(cur, new, s, f)
+  }
+  #[inline]
+  pub(crate) fn get_mut(&mut self) -> &mut *mut T {
+    self.0.get_mut()
+  }
+  #[inline]
+  pub(crate) fn into_inner(self) -> *mut T {
+    self.0.into_inner()
+  }
+}
+
+impl<T> Default for AtomicPtr<T> {
+  fn default() -> Self {
+    Self::new(std::ptr::null_mut())
+  }
+}
+
+impl<T> std::fmt::Debug for AtomicPtr<T> {
+  fn fmt(&self, f: &mut std::fmt::Formatter<'_>) -> std::fmt::Result {
+    self.0.fmt(f)
+  }
+}
+
+/// parking_lot `Mutex` with a perturbation point before every acquisition.
+#[derive(Debug, Default)]
+pub(crate) struct Mutex<T>(parking_lot::Mutex<T>);
+
+#[allow(dead_code)]
+impl<T> Mutex<T> {
+  #[inline]
+  pub(crate) const fn new(value: T) -> Self {
+    Self(parking_lot::Mutex::new(value))
+  }
+  #[inline]
+  pub(crate) fn lock(&self) -> parking_lot::MutexGuard<'_, T> {
+    point(Kind::MutexLock);
+    self.0.lock()
+  }
+  #[inline]
+  pub(crate) fn try_lock(&self) -> Option<parking_lot::MutexGuard<'_, T>> {
+    point(Kind::MutexTryLock);
+    self.0.try_lock()
+  }
+  #[inline]
+  pub(crate) fn get_mut(&mut self) -> &mut T {
+    self.0.get_mut()
+  }
+  #[inline]
+  pub(crate) fn into_inner(self) -> T {
+    self.0.into_inner()
+  }
+}
